@@ -75,14 +75,16 @@ struct SpecOpts {
     bool zero_boundary = true;
 };
 
-static const std::vector<double> ALPHAS = {0.0, 0.5, 1.0, 2.0, -0.5, 1.5, 3.0, -0.75, 0.25};
-static const std::vector<std::pair<double, double>> BOUNDED_AB = {{0, 1}, {-2, 3}, {0.5, 0.75}, {-5, -1}, {1, 10}, {-0.125, 0.375}, {-1, 1}, {3, 3.5}};
-static const std::vector<std::pair<double, double>> UNBOUNDED_AB = {{0, 1}, {1, 2}, {-1, 0.5}, {2, 3}, {0, 0.25}, {-3, 4}};
+static const std::vector<double> ALPHAS = {0.0, 0.5, 1.0, 1.0 / 3.0, -0.5, 1.5, 0.41421356237309515, -0.75, 0.1, 2.0, 3.0};   // includes values that need all 17 digits in a text file
+static const std::vector<std::pair<double, double>> BOUNDED_AB = {{0, 1}, {-2, 3}, {0.5, 0.75}, {-5, -1}, {1.0 / 3.0, 2.0 / 3.0}, {-0.125, 0.375}, {-1, 1}, {3, 3.5}, {-0.1, 0.7}, {1, 10}};
+static const std::vector<std::pair<double, double>> UNBOUNDED_AB = {{0, 1}, {1, 2}, {-1, 0.5}, {2, 3}, {0, 0.25}, {-3, 4}, {0.1, 1.0 / 3.0}};
 
 inline std::vector<int> decode_limits(Src &s, int dims) { std::vector<int> l((size_t)dims); for (auto &x : l) x = s.range(-1, 3); return l; }
+inline bool is_tensor_type(TypeDepth t) { return t == type_tensor || t == type_iptensor || t == type_qptensor; }
 inline std::vector<int> decode_aw(Src &s, int dims, TypeDepth type) {
     std::vector<int> w;
-    for (int j = 0; j < dims; j++) w.push_back(s.range(1, 4));
+    // full-tensor types multiply the depth by the weight (level = depth * weight for level-exact rules): keep the product small
+    for (int j = 0; j < dims; j++) w.push_back(is_tensor_type(type) ? s.range(1, 2) : s.range(1, 4));
     if (is_curved(type)) for (int j = 0; j < dims; j++) w.push_back(s.range(0, 5) - 2);   // curved part in [-2,3]
     return w;
 }
@@ -124,7 +126,7 @@ inline GridSpec decode_spec(Src &s, const SpecOpts &o) {
     case F_FOURIER: sp.rule = rule_fourier; break;
     }
     bool has_type = sp.family == F_GLOBAL || sp.family == F_SEQ || sp.family == F_FOURIER;
-    if (o.aniso && has_type && s.chance(1, 3)) sp.aw = decode_aw(s, sp.dims, sp.type);
+    if (o.aniso && has_type && s.chance(1, 3)) { sp.aw = decode_aw(s, sp.dims, sp.type); if (is_tensor_type(sp.type)) sp.depth = (sp.depth + 1) / 2; }
     if (o.limits && s.chance(1, 4)) sp.limits = decode_limits(s, sp.dims);
     if (o.transforms && s.chance(1, 3)) {
         for (int j = 0; j < sp.dims; j++) {
@@ -227,7 +229,8 @@ inline Op decode_op(Src &s, const GridSpec &sp, const std::vector<int> &kinds) {
         op.type = ALL_TYPES[(size_t)s.pick(9)]; op.min_growth = 1 + s.pick(12); op.output = s.pick(sp.outs + 1) - 1; maybe_limits(); break;
     case OP_UPDATE:
         op.depth = s.range(0, max_depth_for(sp.family, sp.dims)); op.type = s.of(ALL_TYPES);
-        if (s.chance(1, 3)) op.aw = decode_aw(s, sp.dims, op.type); maybe_limits(); break;
+        if (s.chance(1, 3)) op.aw = decode_aw(s, sp.dims, op.type); maybe_limits();
+        if (is_tensor_type(op.type) && !op.aw.empty()) op.depth = (op.depth + 1) / 2; break;
     case OP_SET_COEFF: op.variant = s.byte(); break;
     case OP_CANDIDATES:
         op.variant = s.pick(2); op.type = ALL_TYPES[(size_t)s.pick(9)]; op.output = s.pick(sp.outs + 1) - 1; op.tol = s.of(TOLS); op.crit = s.of(REFINE_TYPES);
